@@ -14,7 +14,7 @@ import (
 func init() {
 	register(&propDef{
 		ID:          "C05",
-		Explanation: "The aggregation arithmetic is decided as an inductive invariant whose base (first record) and step (each later record) are recognised as dataflow shapes - every value handed to a SetUnsigned64Value/SetUnsigned32Value in the aggregation functions is rendered as a normal-form expression over (incoming element, existing element, list index) together with the branch conditions that guard it, and compared with the expected form: step: under isDelta (= strings.Contains(name, \"Delta\")) the per-node field := IN + EX, otherwise := IN and the octet-total diff := IN - EX of that node's field; throughput := (diff * 8) / uint64(incomingEnd - prevEnd) with the early return 'incomingEnd <= prevEnd' dominating the division (no division by zero); the flow's end time := IN only when IN >= EX (isLatest); every update of a COMMON field (stats and throughput) is guarded by isLatest, totals only grow, common deltas copy the reporting node's sum; prevEnd is that node's own previous end, or the INCOMING record's start on the node's first record; base: per-node stat fields seeded with the incoming value iff that node reports (else 0), throughput seeded (octetTotal * 8) / uint64(end - start) only when end > start; reset: ResetValue reaches stats fields only under isDelta and the three throughput lists; R-KEY: every field of FlowKey is assigned from the element of the matching name, the map is keyed by the FlowKey value (comparable struct of basic fields), insertions happen only in addOrUpdateRecordInMap; R-GETTER on every constant element name used in pkg/intermediate. Typed getters on constant element names are also checked through the getUnsignedNNValueByIeName helpers (name passed as a parameter). Not decided: numeric results for concrete histories, the runtime-configured element lists (names are data; only the Delta predicate and the list pairing by index are visible), overflow. If the arithmetic is rewritten in a form the normaliser does not recognise the obligation is reported as unrecognised. Later additions: every update happens under exactly the conditions named (R-VALUE.exact), tcpState follows the latest record, the (fillSrc, fillDst) pair of each call matches its branch, an accepted record is always applied (nil only after the map insertion), error returns of the step only for a missing element, the quotient is computed on uint64. Round-five additions: exactness also covers tests that decide whether an update is reached without dominating it (a continue on one arm of a compound condition). Round-six additions: every element the step updates is looked up in the aggregated record by name; the previous-end helper is found by its role (the function whose result is subtracted from the incoming end time).",
+		Explanation: "The aggregation arithmetic is decided as an inductive invariant whose base (first record) and step (each later record) are recognised as dataflow shapes - every value handed to a SetUnsigned64Value/SetUnsigned32Value in the aggregation functions is rendered as a normal-form expression over (incoming element, existing element, list index) together with the branch conditions that guard it, and compared with the expected form: step: under isDelta (= strings.Contains(name, \"Delta\")) the per-node field := IN + EX, otherwise := IN and the octet-total diff := IN - EX of that node's field; throughput := (diff * 8) / uint64(incomingEnd - prevEnd) with the early return 'incomingEnd <= prevEnd' dominating the division (no division by zero); the flow's end time := IN only when IN >= EX (isLatest); every update of a COMMON field (stats and throughput) is guarded by isLatest, totals only grow, common deltas copy the reporting node's sum; prevEnd is that node's own previous end, or the INCOMING record's start on the node's first record; base: per-node stat fields seeded with the incoming value iff that node reports (else 0), throughput seeded (octetTotal * 8) / uint64(end - start) only when end > start; reset: ResetValue reaches stats fields only under isDelta and the three throughput lists; R-KEY: every field of FlowKey is assigned from the element of the matching name, the map is keyed by the FlowKey value (comparable struct of basic fields), insertions happen only in addOrUpdateRecordInMap; R-GETTER on every constant element name used in pkg/intermediate. Typed getters on constant element names are also checked through the getUnsignedNNValueByIeName helpers (name passed as a parameter). Not decided: numeric results for concrete histories, the runtime-configured element lists (names are data; only the Delta predicate and the list pairing by index are visible), overflow. If the arithmetic is rewritten in a form the normaliser does not recognise the obligation is reported as unrecognised. Later additions: every update happens under exactly the conditions named (R-VALUE.exact), tcpState follows the latest record, the (fillSrc, fillDst) pair of each call matches its branch, an accepted record is always applied (nil only after the map insertion), error returns of the step only for a missing element, the quotient is computed on uint64. Round-five additions: exactness also covers tests that decide whether an update is reached without dominating it (a continue on one arm of a compound condition). Round-six additions: every element the step updates is looked up in the aggregated record by name; the previous-end helper is found by its role (the function whose result is subtracted from the incoming end time). Round-seven addition: every element the aggregation process attaches to a record is made by an element constructor on every path (never taken from a map, field or parameter), because stored records are updated in place.",
 		Assume:      []string{"unsigned 64-bit arithmetic does not overflow for real counters", "the element lists passed by the user pair up by index (checked by InitAggregationProcess)"},
 		Run:         runC05,
 	})
